@@ -72,7 +72,8 @@ Proof.
       destruct (Bool.eqb _ _);
       try (inversion H; subst; apply P_id);
       try (eapply flip_lift; exact H).
-    all: destruct sw as [|a [|b [|? ?]]]; try discriminate; eapply swap_lift; exact H.
+    all: try (destruct sw as [|a [|b [|? ?]]]; try discriminate; eapply swap_lift; exact H).
+  - unfold rand_op in H. inv_bind H as pl Epl. destruct pl as [ix|p]; [eapply P_get|eapply P_perm]; exact H.
 Qed.
 End Lift.
 
@@ -151,7 +152,9 @@ Proof.
       destruct (Bool.eqb _ _);
       try (inversion H; subst; eexists; split; [reflexivity|exact S]);
       try (eapply flip_sim; eassumption).
-    all: destruct sw as [|x [|y [|? ?]]]; try discriminate; eapply swap_sim; eassumption.
+    all: try (destruct sw as [|x [|y [|? ?]]]; try discriminate; eapply swap_sim; eassumption).
+  - unfold rand_op in *. rewrite <- (sim_shape a b S). inv_bind H as pl Epl. cbn [bind].
+    destruct pl as [ix|p]; [eapply sim_get|eapply sim_perm]; eassumption.
 Qed.
 
 (* ---- refusals are simulated as well (pad-like operations: for a valid mode, because
@@ -219,7 +222,10 @@ Proof.
     destruct flip_axis as [x|], swap_axes as [sw|]; try (inversion H; reflexivity); destruct h; try (inversion H; reflexivity);
       destruct (Bool.eqb _ _); try discriminate;
       try (eapply flip_sim_err; eassumption).
-    all: destruct sw as [|x [|y [|? ?]]]; try (inversion H; reflexivity); eapply swap_sim_err; eassumption.
+    all: try (destruct sw as [|x [|y [|? ?]]]; try (inversion H; reflexivity); eapply swap_sim_err; eassumption).
+  - unfold rand_op in *. rewrite <- (sim_shape a b S).
+    destruct (rand_plan _ r) as [pl|]; cbn [bind] in *; [|inversion H; reflexivity].
+    destruct pl as [ix|p]; [eapply sim_get_err|eapply sim_perm_err]; eassumption.
 Qed.
 End Sim.
 
@@ -505,6 +511,11 @@ Proof.
   - inv_bind H as x Ex. inversion H; subst; clear H. unfold vol_permute_channels in Ex.
     inv_bind Ex as pl Epl. destruct (has_dup ds); [discriminate|]. destruct (negb _); [discriminate|].
     inversion Ex; subst. cbn. auto.
+  - inv_bind H as x Ex. inversion H; subst; clear H. unfold vol_squeeze_channel in Ex.
+    destruct ds as [l|].
+    + inv_bind Ex as ks Eks. destruct (existsb _ ks); [discriminate|]. destruct (has_dup l); [discriminate|].
+      inversion Ex; subst. cbn. auto.
+    + inversion Ex; subst. cbn. auto.
 Qed.
 
 Theorem step_tr_FixPos : forall v o v' f, vstep_tr v o = Ok (v', f) -> FixPos v v' f.
@@ -526,6 +537,11 @@ Proof.
   - inv_bind H as x Ex. inversion H; subst; clear H. unfold vol_permute_channels in Ex.
     inv_bind Ex as pl Epl. destruct (has_dup ds); [discriminate|]. destruct (negb _); [discriminate|].
     inversion Ex; subst. intros _. eexists. intros j _ i Hi c. inversion Hi; subst. cbn. reflexivity.
+  - inv_bind H as x Ex. inversion H; subst; clear H. unfold vol_squeeze_channel in Ex.
+    destruct ds as [l|].
+    + inv_bind Ex as ks Eks. destruct (existsb _ ks); [discriminate|]. destruct (has_dup l); [discriminate|].
+      inversion Ex; subst. intros _. eexists. intros j _ i Hi c. inversion Hi; subst. cbn. reflexivity.
+    + inversion Ex; subst. intros _. eexists. intros j _ i Hi c. inversion Hi; subst. cbn. reflexivity.
 Qed.
 
 (* ---- every finite history *)
